@@ -324,6 +324,15 @@ func TestVerif_C16(t *testing.T) {
 	r := vmc.New("C16", "model_checking")
 	r.Rule = "every interleaving (70) of two 4-step tunnel scripts (open, data up, data down, close|reset) from two scripted ingress endpoints that both dial the same real agent, per topology {via transit, shared exit} x kind {tcp, forward} x {colliding, distinct} stream ids x end variants; mesh run to quiescence after each step; non-trivial = executions in which both tunnels were open at the same time; outcomes = distinct final byte deliveries"
 	r.Assume("links FIFO; frames run to quiescence after each script step (per-connection frame processing is sequential in the real agent); asynchronous exit goroutines awaited by count-based barriers")
+	var rpd c16dCase
+	if r.ReplayInto(&rpd) && rpd.Datagram { // replay artefact of the datagram half (datagram_test.go)
+		c16dRun(r, rpd)
+		r.Add("states", 1); r.Add("transitions", 1)
+		if err := r.Finish(); err != nil {
+			t.Fatal(err)
+		}
+		return
+	}
 	var rp c16Scenario
 	if r.ReplayInto(&rp) {
 		c16Run(r, rp)
@@ -377,6 +386,7 @@ func TestVerif_C16(t *testing.T) {
 		}
 	}
 	r.Sample(map[string]any{"topology": "transit", "kind": "tcp", "same_ids": true, "order": orders[35], "end": []string{"close", "reset"}})
+	c16DatagramAll(r) // UDP associations and ICMP sessions as data paths (datagram_test.go)
 	if err := r.Finish(); err != nil {
 		t.Fatal(err)
 	}
